@@ -70,6 +70,12 @@ FIXED = {
    ("C13", "handle leak when Stat fails after Open in FS.OpenFile (handler, dir-size walk) and in HandleOpenDir", "leak plain-file: eio on fstat /big.bin; leak listing-rde: eio on fstat /dir")],
  "a key file that exists but cannot be opened": [
    ("C13", "an I/O error opening the adjacent key file made the server serve the still-encrypted bytes", "wrong-answer-under-fault encrypted-adjacent-key: EIO at op #3 (open)")],
+ "request paths are made root-relative and cleaned": [
+   ("C01", "paths with '..' reached sibling directories whose name starts with the root's name (afero BasePathFs tests a bare string prefix): stat/list/open/create/delete/mkdir/rmdir/dir-size outside the root", "STAT /../root-other/x.txt answered the sibling's file; os-path-outside-root sibling:root-other; syscall-path-outside-root")],
+ "decrypt prints its progress line to stderr": [
+   ("C20", "decrypt wrote its progress message to standard output in front of the image when the output is '-'", "decrypt-output-differs redump-to-stdout / 3k3y-to-stdout")],
+ "decrypt 3k3y also removes the watermark": [
+   ("C20", "decrypt 3k3y output kept watermark+key with a cleared region table: placed under a served root it could not be opened (second transformation attempted)", "serve-back-failed 3k3y-from-PS3ISO / 3k3y-from-GAMES")],
 }
 
 OPEN = [
